@@ -107,6 +107,7 @@ func genHostTable(rt *rapid.T) hostTableCase {
 				continue
 			}
 			usedVip[ip] = true
+			ip = spellVip(rt, ip)
 			l = append(l, ip)
 			m.Vips = append(m.Vips, vipEntry{IP: ip, Product: p})
 		}
@@ -200,20 +201,32 @@ func genVip(rt *rapid.T, m *hostModel) (net.IP, string) {
 	}
 }
 
-func c10CheckProbe(tb ev.TB, rec *ev.Rec, sdc *bfe_route.ServerDataConf, tc *hostTableCase, cfgFP string, host string, vip net.IP, classes ...string) {
+func c10CheckProbe(tb ev.TB, rec *ev.Rec, sdc, accept *bfe_route.ServerDataConf, tc *hostTableCase, cfgFP string, host string, vip net.IP, classes ...string) {
 	want := tc.Model.resolve(host, vip)
 	req := newReq("GET", host, "/", vip, sdc)
+	if accept != nil && vip != nil {
+		// bfe_server/http_conn.go newConn(): the session remembers the product of the VIP according to the
+		// table that was live when the connection was accepted; the request is resolved against `sdc`
+		if p, err := accept.HostTable.LookupProductByVip(vip.String()); err == nil {
+			req.Session.Product = p
+			cfgFP += "|accept-product=" + p
+		}
+	}
 	var err error
 	pi := try(func() { err = sdc.HostTable.LookupHostTagAndProduct(req) })
 	vs := ""
 	if vip != nil {
 		vs = vip.String()
 	}
-	w := map[string]any{"host_rule": tc.HostDoc, "vip_rule": tc.VipDoc, "req_host": host, "vip": vs,
+	w := map[string]any{"host_rule": tc.HostDoc, "vip_rule": tc.VipDoc, "req_host": host, "vip": vs, "session_product_at_accept": req.Session.Product,
 		"want_stage": want.Stage, "want_product": want.Product, "got_product": req.Route.Product, "got_tag": req.Route.HostTag, "got_err": fmt.Sprint(err)}
 	rec.Case(cfgFP+"|"+host+"|"+vs, want.NMatches >= 2, append(classes, "stage-"+want.Stage)...)
 	if pi != nil {
 		rec.Fail(tb, "lookup-panic-"+pi.Site, w, "LookupHostTagAndProduct panicked: %s", pi.Val)
+		return
+	}
+	if sp := req.Session.Product; sp != "" && err == nil && req.Route.Product == sp && sp != want.Product {
+		rec.Fail(tb, "accept-time-vip-product-used-want-"+want.Stage, w, "host %q vip %s: the product %q the VIP had when the connection was accepted was used; by the current tables the request resolves by %s to %q", host, vs, sp, want.Stage, want.Product)
 		return
 	}
 	if want.Stage == stageNone {
@@ -237,9 +250,56 @@ func c10CheckProbe(tb ev.TB, rec *ev.Rec, sdc *bfe_route.ServerDataConf, tc *hos
 	}
 }
 
+// acceptVipDoc derives the VIP table that was live when a long-lived connection was accepted: every VIP of
+// the current table belongs to the next tag-owning product (or is absent), and two VIPs unknown to the current
+// table belong to a product.
+func acceptVipDoc(tc *hostTableCase) obj {
+	prods := productsWithTags(tc)
+	if len(prods) == 0 {
+		return nil
+	}
+	lists := map[string][]string{}
+	for i, e := range tc.Model.Vips {
+		if i%3 == 2 {
+			continue
+		}
+		at := 0
+		for j, p := range prods {
+			if p == e.Product {
+				at = j
+			}
+		}
+		np := prods[(at+1)%len(prods)]
+		lists[np] = append(lists[np], e.IP)
+	}
+	used := map[string]bool{}
+	for _, e := range tc.Model.Vips {
+		if ip := net.ParseIP(e.IP); ip != nil {
+			used[ip.String()] = true
+		}
+	}
+	for i, ip := range []string{"10.9.9.9", "2001:db8::ffff"} {
+		if !used[ip] {
+			np := prods[i%len(prods)]
+			lists[np] = append(lists[np], ip)
+		}
+	}
+	vips := obj{}
+	for _, p := range prods {
+		if len(lists[p]) > 0 {
+			vips = append(vips, kv{p, strs(lists[p])})
+		}
+	}
+	return obj{{"Version", "v0"}, {"Vips", vips}}
+}
+
 func c10Load(dir string, tc *hostTableCase) (*bfe_route.ServerDataConf, error, *panicInfo) {
+	return c10LoadVip(dir, tc, tc.VipDoc)
+}
+
+func c10LoadVip(dir string, tc *hostTableCase, vipDoc obj) (*bfe_route.ServerDataConf, error, *panicInfo) {
 	hf := writeFile(dir, "host_rule.data", mustJSON(tc.HostDoc))
-	vf := writeFile(dir, "vip_rule.data", mustJSON(tc.VipDoc))
+	vf := writeFile(dir, "vip_rule.data", mustJSON(vipDoc))
 	rf := writeFile(dir, "route_rule.data", mustJSON(simpleRouteDoc(productsWithTags(tc))))
 	cf := writeFile(dir, "cluster_conf.data", mustJSON(clusterConfFile([]string{"c0"})))
 	var sdc *bfe_route.ServerDataConf
@@ -292,8 +352,8 @@ func TestC10(t *testing.T) {
 		} else {
 			vip := net.ParseIP("111.111.111.111")
 			for _, h := range []string{"example.org", "EXAMPLE.org:8080", "example.org.", "a.example.org", "a.b.example.org", "x.a.b.example.org", "b.example.org", "other.com", ""} {
-				c10CheckProbe(t, rec, sdc, &tc, "fixed", h, vip, "fixed")
-				c10CheckProbe(t, rec, sdc, &tc, "fixed", h, nil, "fixed")
+				c10CheckProbe(t, rec, sdc, sdc, &tc, "fixed", h, vip, "fixed")
+				c10CheckProbe(t, rec, sdc, nil, &tc, "fixed", h, nil, "fixed")
 			}
 		}
 	}
@@ -313,10 +373,23 @@ func TestC10(t *testing.T) {
 		}
 		cfgFP := string(mustJSON(tc.HostDoc)) + string(mustJSON(tc.VipDoc))
 		rec.Sample(map[string]any{"host_rule": tc.HostDoc, "vip_rule": tc.VipDoc})
+		// the table of the time the connection was accepted (before a reload of vip_rule.data)
+		var sdcOld *bfe_route.ServerDataConf
+		if av := acceptVipDoc(&tc); av != nil {
+			if o, err, pi := c10LoadVip(dir, &tc, av); err == nil && pi == nil {
+				sdcOld = o
+			}
+		}
 		for i := 0; i < nprobe; i++ {
 			host, hclass := genReqHost(rt, &tc.Model)
 			vip, vclass := genVip(rt, &tc.Model)
-			c10CheckProbe(rt, rec, sdc, &tc, cfgFP, host, vip, hclass, vclass)
+			accept, aclass := sdc, "accepted-under-current-table"
+			if k := rapid.IntRange(0, 2).Draw(rt, "acceptkind"); k == 1 && sdcOld != nil {
+				accept, aclass = sdcOld, "accepted-under-older-vip-table"
+			} else if k == 2 {
+				accept, aclass = nil, "no-accept-time-product"
+			}
+			c10CheckProbe(rt, rec, sdc, accept, &tc, cfgFP, host, vip, hclass, vclass, aclass)
 		}
 	})
 }
